@@ -1,6 +1,6 @@
 """rkyv clause of C08 (thorough tier): archived values compare like the values they were archived from; deserialising is the identity."""
 from ..absint import Interp, Opts, ByRef, Agg, Opaque, K, UNIT
-from ..harness import get_db, run_jobs, dec_val, dec_parts, poly_eq, show_outcome, res_parts
+from ..harness import dec_coeff, get_db, run_jobs, dec_val, dec_parts, poly_eq, show_outcome, res_parts
 from ..db import span_str
 
 SC = [0, 1, 9, 17, 18]
@@ -22,14 +22,14 @@ def run_job(job):
         return [('B-RKYV-IDENTITY', '%s;deserialize;p=%d' % (cfg, p), False, 'impl Deserialize<Decimal, D> for ArchivedDecimal not found', None)]
     I = Interp(db, Opts())
     st = I.new_state()
-    d = dec_val(st, 'x', p)
-    a = Agg('fpdec::ArchivedDecimal', 0, d.fields)
+    d = dec_val(st, 'x', p, adt='fpdec::ArchivedDecimal')
+    a = d
     I.call_root(st, fn, [ByRef(a), ByRef(Opaque('D', 'deserializer'))])
     outs = I.explore(st)
     for o in outs:
         rp = res_parts(o.value) if o.kind == 'ret' else None
         dp = dec_parts(rp[1]) if rp and rp[0] == 'ok' else None
-        if dp is None or not poly_eq(o.state, dp[0].p, d.fields[0].p) or (dp[1].lo, dp[1].hi) != (p, p):
+        if dp is None or not poly_eq(o.state, dp[0].p, dec_coeff(d).p) or (dp[1].lo, dp[1].hi) != (p, p):
             bad.append(show_outcome(o)[:300])
     if len(outs) != 1:
         bad.append('%d outcomes' % len(outs))
